@@ -749,13 +749,26 @@ fn default_decl(input: &str) -> IResult<&str, model::DeclarationAttDefault<'_>> 
 ///
 /// [\[66\] CharRef](https://www.w3.org/TR/2008/REC-xml-20081126/#NT-CharRef)
 fn char_ref(input: &str) -> IResult<&str, model::Reference<'_>> {
+    // WFC: Legal Character
+    fn legal(digits: &str, radix: u32) -> bool {
+        u32::from_str_radix(digits, radix)
+            .ok()
+            .and_then(char::from_u32)
+            .map(xmlchar::is_char)
+            .unwrap_or(false)
+    }
+
     alt((
         map(
-            delimited(tag("&#"), digit1, tag(";")),
+            delimited(tag("&#"), verify(digit1, |v: &str| legal(v, 10)), tag(";")),
             model::Reference::digit,
         ),
         map(
-            delimited(tag("&#x"), hex_digit1, tag(";")),
+            delimited(
+                tag("&#x"),
+                verify(hex_digit1, |v: &str| legal(v, 16)),
+                tag(";"),
+            ),
             model::Reference::hex,
         ),
     ))(input)
